@@ -155,7 +155,10 @@ PROPS['C06'] = dict(
             D('RouterLifecycle', 'MCRouterLifecycle_fixed_stop.cfg'),
             D('RouterLifecycle', 'MCRouterLifecycle_mut_waits.cfg', expect='fail', violates='Graceful'),
             D('RouterLifecycle', 'MCRouterLifecycle_mut_handleclose.cfg', expect='fail', violates='SubClosedAtEnd'),
-            D('RouterLifecycle', 'MCRouterLifecycle_mut_secondclose.cfg', expect='fail', violates='Graceful')],
+            D('RouterLifecycle', 'MCRouterLifecycle_mut_secondclose.cfg', expect='fail', violates='Graceful'),
+            # lock order: closedLock -> handlersLock in Close, handlersLock alone in RunHandlers, Done() before handlersLock in the ending handler
+            D('RouterLifecycle', 'MCRouterLifecycle_mut_unregfirst.cfg', expect='fail', violates='NoStuck'),
+            D('RouterLifecycle', 'MCRouterLifecycle_mut_isclosed.cfg', expect='fail', violates='NoStuck')],
     traces={'RouterCloseTrace': dict(module='RouterCloseTrace', cfg='RouterCloseTrace.cfg'),
             'RouterLifecycleImplTrace': dict(module='RouterLifecycleImplTrace', cfg='RouterLifecycleImplTrace.cfg', timeout=1800)},
     selftests=[('RouterCloseTrace', 'drop', dict(e='hend')), ('RouterLifecycleImplTrace', 'drop', dict(e='hook', point='router.run.dispatched'))],
@@ -174,6 +177,7 @@ PROPS['C10'] = dict(
     design=[D('RouterLifecycle', 'MCRouterLifecycle_fixed_stop.cfg'),
             D('RouterLifecycle', 'MCRouterLifecycle_selfclose.cfg'),
             D('RouterLifecycle', 'MCRouterLifecycle_mut_started.cfg', expect='fail', violates='NoPanic'),
+            D('RouterLifecycle', 'MCRouterLifecycle_mut_skipstopped.cfg', expect='fail', violates='StoppedCloses'),
             # the self-close watcher of a router whose handlers are added after Run (defect 578fb50 as a legacy switch)
             D('RouterWatcher', 'MCRouterWatcher_fixed.cfg', coverage=True, allow_zero=['AddHandlerFinish']),   # (only the MutSignalBeforeAdd design splits AddHandler)
             D('RouterWatcher', 'MCRouterWatcher_mut_unbuffered.cfg', expect='fail', violates='SelfClose'),
